@@ -385,6 +385,28 @@ def d132():
     return None
 
 
+def d133():
+    m = df.Mesh(p1=(0, 0, 0), p2=(2, 1, 1), n=(2, 1, 1))
+    f = df.Field(m, nvdim=3, value=(3, 0, 4), vdims=["a", "b", "c"])
+    f.vdims = []
+    try:
+        o = f.orientation
+        g = -f
+    except Exception as e:
+        return f"after f.vdims = [] the field cannot be used: {type(e).__name__}: {str(e)[:80]}"
+    return None if np.allclose(o.array[0, 0, 0], [0.6, 0.0, 0.8]) and g.array[0, 0, 0].tolist() == [-3.0, -0.0, -4.0] else "wrong values"
+
+
+def d134():
+    R = df.Region(p1=(0, 0), p2=(4, 2))
+    m1 = df.Mesh(region=R, n=(4, 2), subregions={"a": df.Region(p1=(0, 0), p2=(2, 1))})
+    m2 = df.Mesh(region=R, n=(4, 2), subregions={"a": df.Region(p1=(0, 0), p2=(2, 1))})
+    m1.translate((1, 1), inplace=True)
+    if m2.region.pmin.tolist() != [0, 0] or R.pmin.tolist() != [0, 0]:
+        return f"m1.translate(inplace=True) moved m2.region to {m2.region.pmin.tolist()} and the caller's region to {R.pmin.tolist()}"
+    return None if m1.region.pmin.tolist() == [1, 1] else "m1 did not move"
+
+
 ALL = {
     "D1": ("C13", d1), "D2": ("C13", d2), "D3": ("C12", d3), "D4": ("C12", d4),
     "D5": ("C08", d5), "D6": ("C08", d6), "D7": ("C08", d7), "D8": ("C03", d8),
@@ -392,7 +414,7 @@ ALL = {
     "D14": ("C09", d14), "D15": ("C09", d15), "D16": ("C11", d16), "D20": ("C19", d20), "D21": ("C13", d21), "D22": ("C08", d22), "D23": ("C03", d23), "D31": ("C10", d31), "D41": ("C02", d41), "D43": ("C02", d43), "D44": ("C02", d44),
     "D101": ("C01", d101), "D111": ("C08", d111), "D113": ("C13", d113), "D114": ("C12", d114),
     "D45": ("C02", d45), "D46": ("C02", d46),
-    "D123": ("C04", d123), "D124": ("C01", d124), "D58": ("C13", d58), "D125": ("C12", d125), "D130": ("C04", d130), "D131": ("C13", d131), "D132": ("C10", d132),
+    "D123": ("C04", d123), "D124": ("C01", d124), "D58": ("C13", d58), "D125": ("C12", d125), "D130": ("C04", d130), "D131": ("C13", d131), "D132": ("C10", d132), "D133": ("C15", d133), "D134": ("C13", d134),
 }
 
 
